@@ -581,7 +581,10 @@ static void job_verify(c06 *c, mctx *m, job *j, int first_of_case) {
     {
         unsigned mt = j->mp ? j->mt : j->type;
         unsigned gt = (unsigned)varintAdaptiveGetEncodingType(j->buf);
-        if (j->type > VARINT_ADAPTIVE_TAGGED || mt != j->type ||
+        /* any member of varintAdaptiveEncodingType may be named (GROUP is
+         * declared in the enum; which encodings the analysis picks is not
+         * this property's business) - what must hold is the agreement */
+        if (j->type > VARINT_ADAPTIVE_GROUP || mt != j->type ||
             gt != j->type || (j->forced >= 0 && j->type != (unsigned)j->forced)) {
             vf_fail(rep, site, "header",
                     "step %u n=%zu: first byte %u, meta.encodingType %u%s, "
